@@ -118,7 +118,12 @@ def _gen_rep(cfg, depth, budget):
                 mn = mx
             top = mx
     inner_budget = max(1, budget // max(1, top))
-    body = _gen_atom(cfg, depth, inner_budget)
+    if depth > 0 and inner_budget >= 4 and r.random() < 0.12:
+        # directly nested quantifiers: (?:x{a,}){c,}, (?:x{2}){3}, (x+)* ...
+        inner = _gen_rep(cfg, 0, inner_budget)
+        body = {"k": "group", "kind": r.choice(("noncap", "noncap", "cap")), "body": {"k": "seq", "items": [inner]}}
+    else:
+        body = _gen_atom(cfg, depth, inner_budget)
     return {"k": "rep", "body": body, "min": mn, "max": mx, "lazy": lazy, "form": form}
 
 
@@ -204,7 +209,16 @@ def _splice_unsupported(ast, r):
         seqs.append(ast["body"])
     s = r.choice(seqs)
     text = r.choice(UNSUPPORTED)
-    s["items"].insert(r.randint(0, len(s["items"])), {"k": "unsup", "text": text})
+    node = {"k": "unsup", "text": text}
+    if r.random() < 0.35:
+        # an unsupported construct as the whole operand of a quantifier / inside a group
+        mn = r.choice((0, 1, 1, 2))
+        mx = r.choice((None, mn, mn + 1))
+        form = "{m,}" if mx is None else "{m,n}"
+        if r.random() < 0.5:
+            node = {"k": "group", "kind": r.choice(("cap", "noncap")), "body": {"k": "seq", "items": [node]}}
+        node = {"k": "rep", "body": node, "min": mn, "max": mx, "lazy": r.random() < 0.3, "form": form}
+    s["items"].insert(r.randint(0, len(s["items"])), node)
     if text in ("\\1", "(?P=g1)"):
         # make the reference resolvable: a named capturing group first in the pattern
         body = ast["body"]
